@@ -16,7 +16,7 @@ CHECKS = {
         note='Trusted: Lean kernel + Mathlib; Jordan link (even-odd parity = topological inside for simple rings) assumed and '
              'validated against an independent winding-number oracle; rational model vs binary64 code compared on dyadic grids only; '
              'antimeridian-spanning shapes excluded by the statement.',
-        technique='Lean 4 proof (model = even-odd spec, invariance lemmas) + exhaustive/random differential correspondence vs GeoPolygon/GeoBox',
+        technique='Lean 4 proof (model = even-odd spec, invariance lemmas) + source translator (_point_in_polygon regenerated as Lean from the current text and proved equal to the model) + exhaustive/random differential correspondence vs GeoPolygon/GeoBox',
         design='§6 C01'),
     'C02': dict(
         text='Lean 4 theorems over exact rationals: find_line_intersection finds a point iff the segments are non-parallel and share a '
@@ -41,7 +41,7 @@ CHECKS = {
              '(whose correctness is C01/C02); dict.copy/deepcopy modelled as allocation, identity observed with id(). Tied to the code by '
              'correspondence over every 0/1 relation mask of 1-4 members, all member orders, every shape kind as counterpart, exact '
              'bounds and split scenarios.',
-        technique='Lean 4 proof (loops = any/all spec, permutation invariance, heap-model split) + exhaustive/random differential correspondence against real multi-shapes',
+        technique='Lean 4 proof (loops = any/all spec, permutation invariance, heap-model split) + source translator (MultiShapeBase member loops regenerated as Lean and proved equal to the model) + exhaustive/random differential correspondence against real multi-shapes',
         design='§6 C04'),
     'C05': dict(
         text='Lean 4 theorems for every assignment of time bounds and every spatial relation: intersects / contains / `in` equal temporal && '
@@ -53,7 +53,7 @@ CHECKS = {
              'The spatial sub-answer is measured on dt-stripped copies (its time-freeness is C02). Correspondence covers all 100 ordered '
              'kind pairs, every spatial class, every order type of two intervals/instants, all construction routes and datetime '
              'representations, in a process whose local zone is not UTC.',
-        technique='Lean 4 proof (gates = conjunction, linked to the C06 set semantics) + exhaustive/random differential correspondence + 6-way indistinguishability observation',
+        technique='Lean 4 proof (gates = conjunction, linked to the C06 set semantics; histories of in-place updates) + source translator (the space-time gates of _base.py regenerated as Lean and proved equal to the model) + exhaustive/random differential correspondence + 6-way indistinguishability observation',
         design='§6 C05'),
     'C10': dict(
         text='Lean 4 theorems about an executable model of the monotone chain over exact rationals: for every finite point list the result is '
@@ -106,7 +106,7 @@ CHECKS = {
         note='Per-shape predicates, bounds, vertices and == classes are taken as measured (they are the business of C01-C05, C09, C15). The '
              'hull contains member vertices claim is C10 theorem, additionally checked end-to-end here with exact arithmetic. Purity is '
              'structural in the model and tested on the implementation.',
-        technique='Lean 4 proof (model = List.filter spec; order-theoretic characterisation of bounds) + random/exhaustive differential correspondence + independent list-comprehension spec',
+        technique='Lean 4 proof (model = List.filter spec; order-theoretic characterisation of bounds) + source translator (collection filters and intersects regenerated as Lean and proved equal to the model) + random/exhaustive differential correspondence + independent list-comprehension spec',
         design='§6 C18'),
     'C20': dict(
         text='PARTIAL claim. Lean 4 theorems about this repository own logic on our side of the three library boundaries (pyshp, '
@@ -244,7 +244,7 @@ CHECKS = {
              'tick line plus random microsecond/timezone cases.',
         note='Trusted: Lean kernel + Mathlib; datetime arithmetic of CPython modelled as exact integers (microseconds); '
              'naive/aware handling is part of the harness abstraction and exercised by the random stream.',
-        technique='Lean 4 proof (model = set spec) + exhaustive/random differential correspondence model vs time.py',
+        technique='Lean 4 proof (model = set spec) + source translator (time.py regenerated as Lean on every run and proved equal to the model) + exhaustive/random differential correspondence model vs time.py',
         design='§6 C06'),
 }
 
@@ -275,7 +275,9 @@ def main():
                        'reason': PENDING.get(pid, 'not claimed yet: the Lean model and check for this property are still being built (see DESIGN.md §6)')})
     m = {
         'version': 1,
-        'setup_cmd': 'cd lean && lake build && cd .. && /venv/bin/python -m compileall -q harness',
+        # regenerate the source-derived Lean files, cold-build every module (a module that does not build is reported
+        # by the check that owns it, not by setup), byte-compile the harness
+        'setup_cmd': './check --regenerate; (cd lean && lake build -q; true); /venv/bin/python -m compileall -q harness',
         'hooks': {
             'guard': 'GEOSTRUCTURES_VERIF',
             'enable': 'no hooks are needed: every observation point is public API (random choices of Welzl are controlled by patching random in the harness process)',
